@@ -426,6 +426,31 @@ def main():
         .inst(bfr="0.01", bfa="feeb").create_bid("buyer", [(909, "q")], B1, (9, "q"), "1", "q", 900, 900) \
         .create_ask("seller", [(900, "base")], A1, "base", "q", "1", 900).match("exec", A1, B1, "1", 150).query("get_bid", B1) \
         .match("exec", A1, B1, "1", 100).exits(owner_a="seller", owner_b="buyer").write()
+    # pro-rata shares a hair below / above one half (fee * unspent = k*quote + (quote -+ 1)/2): an intermediate rounding of the
+    # share to fewer decimals turns them into ties and moves them by a whole unit
+    from fractions import Fraction as _Fr
+    from math import gcd as _gcd
+    for tag, Q, rate in (("q3e11", 314159265359, "0.0025"), ("q1e13", 10000000000037, "0.003"), ("q2e11", 200000000003, "0.05")):
+        fee = int(_Fr(rate) * Q + _Fr(1, 2))
+        while _gcd(fee, Q) != 1:
+            Q += 2
+            fee = int(_Fr(rate) * Q + _Fr(1, 2))
+        for side, target in (("below", (Q - 1) // 2), ("above", (Q + 1) // 2)):
+            R = target * pow(fee, -1, Q) % Q
+            if not 0 < R < Q:
+                continue
+            H("c09_share_just_%s_half_fill_%s" % (side, tag), "a fill after which the pro-rata fee share is within 1/(2*quote) %s one half" % side).env() \
+                .inst(bfr=rate, bfa="feeb").create_bid("buyer", [(Q + fee, "q")], B1, (fee, "q"), "1", "q", Q, Q) \
+                .create_ask("seller", [(Q, "base")], A1, "base", "q", "1", Q).match("exec", A1, B1, "1", Q - R).query("get_bid", B1) \
+                .exits(owner_a="seller", owner_b="buyer").rev("cancel_bid", "buyer", B1).write()
+            H("c09_share_just_%s_half_reject_%s" % (side, tag), "a partial reject after which the pro-rata fee share is within 1/(2*quote) %s one half" % side).env() \
+                .inst(bfr=rate, bfa="feeb").create_bid("buyer", [(Q + fee, "q")], B1, (fee, "q"), "1", "q", Q, Q) \
+                .rev("reject_bid", "exec", B1, Q - R).query("get_bid", B1) \
+                .create_ask("seller", [(R, "base")], A1, "base", "q", "1", R).match("exec", A1, B1, "1", R).write()
+    H("c09_share_just_below_half_two_fills", "two fills, the second leaving a share 1.6e-12 below one half").env() \
+        .inst(bfr="0.0025", bfa="feeb").create_bid("buyer", [(314159265359 + 785398163, "q")], B1, (785398163, "q"), "1", "q", 314159265359, 314159265359) \
+        .create_ask("seller", [(314159265359, "base")], A1, "base", "q", "1", 314159265359).match("exec", A1, B1, "1", 100000000000) \
+        .match("exec", A1, B1, "1", 180569909942).query("get_bid", B1).rev("cancel_bid", "buyer", B1).write()
     H("c12_only_pending_asks", "fee changes while the ask side holds only asks awaiting approval").env().inst(afr="0.01", afa="feea") \
         .create_ask("seller", [(5, "cv")], A1, "cv", "q", "2", 5).modify("exec", afr="0.5", afa="feea").modify("exec", afr="", afa="") \
         .modify("exec", aattrs=["kyc"]).approve("appr", [(5, "base")], A1, "base", 5).modify("exec", afr="0.5", afa="feea").query("get_contract_info").write()
